@@ -73,6 +73,8 @@ def run(prog, upto=None, hooks=None) -> Result:
     def wire(w):
         if "in" in w:
             return B[w["in"]].input_node.out(w["o"])
+        if "root" in w:  # only produced by C13's injections
+            return res.hugr.root.out(w["root"])
         n = N[w["n"]]
         return n.out(w["o"])
 
